@@ -691,6 +691,14 @@ func zvRawHistory(run *core.Run, h int, rng *core.Rand, steps int) {
 				if isBool && rb {
 					bad(o, "C12:roots:cas-reported-applied-but-not", fmt.Sprintf("%s with index %d (table index %d) reported applied=true", req.Op, o.Cas, m.lastIdx))
 				}
+			case kind == "set-roots-and-config" && o.CfgCas != m.cfgIdx:
+				// the pair is applied atomically: a configuration index that does not match leaves the
+				// roots untouched as well (all or nothing)
+				cls += ":roots-match+config-stale"
+				run.Count("composite-config-cas-failed-nothing-applied")
+				if isBool && rb {
+					bad(o, "C12:roots:set-roots-and-config:config-cas-failed-but-reported-applied", "the config CAS failed but the command reported true")
+				}
 			default:
 				rootsApplied = true
 				cls += ":applied-" + o.Shape
